@@ -175,6 +175,7 @@ type Sim struct {
 	siteCount  map[uint32]int32
 	stalledNow int
 	stallLimit int64
+	stallsLeft int
 	burst      int
 }
 
@@ -214,6 +215,7 @@ func New(t *core.Tape, c Config) *Sim {
 		s.rareStall = true
 		s.siteCount = map[uint32]int32{}
 		s.stallLimit = 4096 << uint(t.Choose(9))
+		s.stallsLeft = maxStalls
 	}
 	return s
 }
@@ -775,6 +777,7 @@ const (
 	rareSiteMax = 3
 	stallWarmup = 256
 	stallBurst  = 48
+	maxStalls   = 12 // per run: the fault is an episode, not a way of life
 )
 
 func (s *Sim) stallAt(me *Task, k Kind, obj int) {
@@ -794,7 +797,7 @@ func (s *Sim) stallAt(me *Task, k Kind, obj int) {
 		}
 		return
 	}
-	if s.Steps < stallWarmup || c > rareSiteMax || me.daemon {
+	if s.Steps < stallWarmup || c > rareSiteMax || me.daemon || s.stallsLeft == 0 {
 		return
 	}
 	s.Probes.Inc("rare_site_reached")
@@ -808,6 +811,7 @@ func (s *Sim) stallAt(me *Task, k Kind, obj int) {
 		return
 	}
 	me.stalled = true
+	s.stallsLeft--
 	me.stallKey = key
 	me.stallEnd = s.Steps + s.stallLimit
 	s.stalledNow++
